@@ -7,10 +7,12 @@ use crate::rng::Rng;
 /// Indent families grouped by display width and emptiness.
 pub const INDENTS_W0_EMPTY: &[&str] = &[""];
 pub const INDENTS_W0_NONEMPTY: &[&str] = &["\u{301}", "\u{1b}[1m", "\u{200b}"];
-pub const INDENTS_W1: &[&str] = &[" ", ">", "é", "\u{1b}[31m>\u{1b}[0m", "*"];
-pub const INDENTS_W2: &[&str] = &["  ", "- ", "> ", "你", "é ", "\u{1b}[2m| \u{1b}[m", "//"];
-pub const INDENTS_W4: &[&str] = &["    ", "--> ", "你好", "  * ", "é è "];
-pub const INDENTS_W10: &[&str] = &["          ", "0123456789", "你好你好你好"];
+pub const INDENTS_W1: &[&str] = &[" ", ">", "é", "\u{1b}[31m>\u{1b}[0m", "*", "\t>"];
+// (the emoji-sequence, keycap, skin-tone, ZWJ, lam-alef and tab indents are measured differently by
+// string-level width functions than by the per-character sum that `display_width` is specified to be)
+pub const INDENTS_W2: &[&str] = &["  ", "- ", "> ", "你", "é ", "\u{1b}[2m| \u{1b}[m", "//", "\u{26a0}\u{fe0f} ", "1\u{fe0f}\u{20e3} ", "\u{644}\u{627}", "\t| "];
+pub const INDENTS_W4: &[&str] = &["    ", "--> ", "你好", "  * ", "é è ", "\u{1f44d}\u{1f3fd}", "\u{2714}\u{fe0f}\u{2714}\u{fe0f}  "];
+pub const INDENTS_W10: &[&str] = &["          ", "0123456789", "你好你好你好", "\u{1f468}\u{200d}\u{1f469}\u{200d}\u{1f467}\u{200d}\u{1f466}  "];
 
 /// With the crude width rule (no `uw` feature) the zero-width family has
 /// width 1 for U+0301 / U+200B; the families are only used where the
